@@ -49,8 +49,10 @@ Fixpoint node_at (path : list text) (l : list enode) : option enode :=
       end
   end.
 
-(** the config the RFC gives the node at [path]: its own statement, else the nearest ancestor's,
-    else [pcfg] (true at the module) *)
+(** the config the RFC gives the data node at [path]: its own statement, else the nearest
+    ancestor's, else [pcfg] (true at the module).  An rpc/action, its input and output and a
+    notification carry no config and cut the inheritance: below them the search for a stating
+    ancestor stops and the default is true again (RFC 7950 7.21.1: config is ignored there) *)
 Fixpoint nearest_stated (pcfg : bool) (path : list text) (l : list enode) : option bool :=
   match path with
   | [] => None
@@ -58,7 +60,12 @@ Fixpoint nearest_stated (pcfg : bool) (path : list text) (l : list enode) : opti
       match find (fun e => text_eqb (e_name e) seg) l with
       | None => None
       | Some e =>
-          let c := match p_config (e_props e) with Some b => b | None => pcfg end in
-          match rest with [] => Some c | _ :: _ => nearest_stated c rest (e_kids e) end
+          let c := if is_datadef (e_kind e)
+                   then match p_config (e_props e) with Some b => b | None => pcfg end
+                   else true in
+          match rest with
+          | [] => if is_datadef (e_kind e) then Some c else None
+          | _ :: _ => nearest_stated c rest (e_kids e)
+          end
       end
   end.
